@@ -5,7 +5,7 @@ ENTRIES = {
             "Every EQL condition tree with <=3 (thorough: 4) leaves over a 5-atom alphabet, with every and_/or_ labelling and "
             "not_ above any node, plus one feature atom per vocabulary item of the statement in every <=2-leaf context, "
             "quantifiers over predicates and pairs of quantifiers (same and different quantified variables), method calls with "
-            "symbolic arguments, flatten and nested "
+            "symbolic arguments, order comparisons over partially ordered values (sets by inclusion, NaN), flatten and nested "
             "an/the sub-queries, and queries in which one expression object occurs at several positions, is built through "
             "the public API and evaluated by the real engine "
             "over a family of domain contents (all valuations, a value-equal twin, every pair of sub-domains of a "
@@ -19,7 +19,7 @@ ENTRIES = {
             "bounded exhaustive enumeration of the NNF conjunctive/else-if fragment, row multisets vs brute force; the()/Exactly(k) around the true count",
             "Every query of the fragment named by the property (atoms and negated atoms incl. Predicate subclasses and "
             "symbolic functions, and_, or_ only between operands over equal variable sets) with <=3 leaves over 2 variables "
-            "and <=2 leaves over 3 variables (thorough: 3 leaves over 3 variables, and 4 leaves over 2 variables with a core of six atoms) x 5 selections x 4 domain contents runs on the real engine; "
+            "and <=2 leaves over 3 variables (thorough: 3 leaves over 3 variables, and 4 leaves over 2 variables with a core of six atoms) x 5 selections x 4 domain contents, plus a family with order comparisons over partially ordered values, runs on the real engine; "
             "the multiset of rows must equal the projection of all satisfying total assignments, and the()/"
             "an(Exactly(count-1|count|count+1)) must follow the true count.",
             "Row order not compared; bounds in evidence.bounds; CPython 3.12.",
@@ -50,7 +50,7 @@ ENTRIES = {
             "missing, missing parent, import-failing modules; functions, modules, TypeVars, instances, unhashable values, plain classes, the "
             "abstract serializer base, deserialisable controls), top level and nested in a list, must raise a "
             "JSONSerializationError subclass (the documented subclass for the four documented cases) and never return an "
-            "object; the control group must return exactly the tagged class.",
+            "object; the control group must return exactly the tagged class. Every document is deserialised three times in a row and all attempts must agree.",
             "Only JSON-representable tags; module alphabet fixed (stdlib + harness modules).",
             "DESIGN.md section 3 C19"),
     "C13": ("model_checking",
@@ -129,7 +129,7 @@ ENTRIES = {
     "C12": ("exploration",
             "exhaustive enumeration of call shapes (signature x positional/keyword split x argument sources) with a call log of harness-defined bodies",
             "Every call shape - Predicate subclass, @symbolic_function function and method; arity 1-3 with 0-2 trailing defaults; "
-            "every number of given arguments, positional prefix length and keyword order; every assignment of {variable, attribute "
+            "every number of given arguments, positional prefix length and keyword order; a keyword-only parameter declared between the positional ones (Predicate dataclass, function, method) in every valid call shape; every assignment of {variable, attribute "
             "of a variable, second variable, result of a nested symbolic call, concrete value} to the arguments - is executed, and so are "
             "pairs of different callables with the same module and qualified name but another parameter order or number, "
             "used one after the other in both orders: all-concrete calls must run "
@@ -165,7 +165,7 @@ ENTRIES = {
             "36k generated models (<=3 classes, every inheritance forest, relation fields X / Optional[X] / List / Set / Sequence / Type "
             "to every target incl. self, two fields to one target, quoted forward references inside Optional/List/... in modules "
             "WITHOUT postponed annotations and modules with `from __future__ import annotations`, private "
-            "fields, rotating scalar blocks) are imported and handed to ClassDiagram in different orders; nodes, inheritance "
+            "fields, rotating scalar blocks) and four handwritten models (generic bases; several direct bases, a diamond) are imported and handed to ClassDiagram in different orders; nodes, inheritance "
             "edges, association edges and every WrappedField predicate are compared with an independent typing-based reading; "
             "windows that together cover every sequence of <=2 (thorough 3) read-only operations are applied with the snapshot "
             "re-taken after each operation, and derived sub-diagrams are compared with the documented edge set.",
